@@ -3,6 +3,8 @@
 package vsess
 
 import (
+	"math"
+
 	"github.com/paulsonkoly/calc/internal/vrt"
 	"github.com/paulsonkoly/calc/types/node"
 )
@@ -201,5 +203,37 @@ func VerifC01Arrays() {
 	p.Step(nm("x"), true, "base-kept")
 	p.Step(nm("y"), true, "first-kept")
 	p.Step(nm("z"), true, "second-kept")
+	vrt.Cover("done")
+}
+
+// VerifC01Increment: `v = v + c` and `v = c + v` for every int or float literal c (the compiler
+// turns some of them into an in-place increment) on a variable of any kind, global or local,
+// against the reference; the kind of the result (int or float) is part of the comparison.
+func VerifC01Increment() {
+	p := NewPair()
+	g := p.G
+	v := g.poly(0)
+	var c node.Type = node.Int(vrt.Int("addend"))
+	if vrt.Bool("float-addend") {
+		c = node.Float(math.Float64frombits(vrt.Uint64("addend.bits")))
+	}
+	var st node.Type
+	if vrt.Bool("literal-first") {
+		st = asg("p0", bin("+", c, v))
+	} else {
+		st = asg("p0", bin("+", v, c))
+	}
+	p.Pre()
+	switch vrt.Choice("where", 3) {
+	case 0:
+		p.Step(st, true, "increment-global")
+		p.Step(nm("p0"), true, "global-after-increment")
+	case 1:
+		p.Step(blk(st, nm("p0")), true, "increment-global-discarded")
+	default:
+		p.Step(blk(asg("f", fn(blk(asg("p0", nm("q")), st, nm("p0")), "q")), call("f", nm("p0"))), true, "increment-local")
+	}
+	// the kind shows in what the value does next
+	p.Step(bin("&", nm("p0"), ilit(1)), true, "bit-operation-afterwards")
 	vrt.Cover("done")
 }
